@@ -504,6 +504,10 @@ impl<'a> Interp<'a> {
                 let s = render_value(&v)?;
                 self.out.push_str(&s);
             }
+            Stmt::OutDump(e) => {
+                let v = self.eval(e)?;
+                self.out.push_str(&crate::cfgs::dump_v(&v));
+            }
             Stmt::Assign(n, e) => {
                 let v = self.eval(e)?;
                 self.set_global(n, v);
@@ -511,6 +515,9 @@ impl<'a> Interp<'a> {
             Stmt::Capture(n, b) => {
                 let s = self.capture_block(b)?;
                 self.set_global(n, V::Str(s));
+            }
+            Stmt::Incr(_) | Stmt::Decr(_) if self.layers.iter().any(|l| matches!(l, Layer::Sandbox(..))) => {
+                return unspec("increment/decrement inside a rendered (isolated) partial");
             }
             Stmt::Incr(n) => {
                 let cur = self.counters.iter().find(|(k, _)| k == n).map(|(_, c)| *c).unwrap_or(0);
